@@ -264,8 +264,6 @@ ADAPTORS = [
     ('aggregate', '.aggregate(add2)', lambda it: itertools.accumulate(it), 1, True),
     ('aggregate0', '.aggregate(0, add2)', lambda it: itertools.accumulate(it, initial=0), 1, True),
     ('distinct', '.distinct()', lambda it: it, 1, True),
-    ('repeat3', '.repeat(3)', lambda it: it, 1, True),
-    ('repeat-inf', '.repeat()', lambda it: it, 1, True),
     ('enumerate', '.enumerate()', lambda it: enumerate(it), 1, False),
     ('zip', '.zip(count().to_generator())', lambda it: zip(it, itertools.count()), 1, False),
     ('windows2', '.windows(2)', lambda it: windows(it, 2), 2, False),
@@ -301,6 +299,17 @@ def lazy_cases(tier):
             slack = sum(a[3] for a in pipe) + 1
             expr = 'count().to_generator().map(tick)' + ''.join(a[1] for a in pipe) + csuffix
             out.append({'name': '+'.join(a[0] for a in pipe) + '|' + cn, 'expr': expr, 'need': need, 'slack': slack})
+    # copies of an infinite stream: the first copy never ends and nothing is consumed before it is asked for
+    for rn, rsuffix in (('repeat3', '.repeat(3)'), ('repeat-inf', '.repeat()')):
+        for a in [None] + [x for x in ADAPTORS if x[4] and x[0] not in ('take5', 'take_while')]:
+            for cn, csuffix, cfun in CONSUMERS:
+                src = Counter()
+                it = iter(src)
+                if a is not None:
+                    it = a[2](it)
+                cfun(it)
+                out.append({'name': (a[0] + '+' if a else '') + rn + '|' + cn, 'expr': 'count().to_generator().map(tick)' + (a[1] if a else '') + rsuffix + csuffix,
+                            'need': src.pulled, 'slack': (a[3] if a else 0) + 2})
     return out
 
 
